@@ -14,19 +14,45 @@ Inductive case :=
 | CChain (ml ms : bool) (ht : list (str * str)) (srcs : list src_desc)
          (sys : str) (pd : dict) (pv : str) (fk : str) (fv : val)
 | CAssoc (ml ms : bool) (a b c : dict)                          (* three trees, both groupings *)
-| CHist (ml ms : bool) (ht : list (str * str)) (steps : list cstep).   (* ONE composite, sources change between calls *)
+| CHist (ml ms : bool) (ht : list (str * str)) (steps : list cstep)    (* ONE composite, sources change between calls *)
+(* a composite built from (name, config) descriptions: creating constituent j raises [fexc] the first fails_j times it
+   is attempted; the caller retries the construction up to [tries] times and then uses the composite *)
+| CBuild (ml ms : bool) (ht : list (str * str)) (fails : list nat) (fexc : exc) (tries : nat) (steps : list cstep).
 
 Inductive obs :=
 | OMerge (r : res dict) (a' b' : dict)                         (* result, arguments afterwards *)
 | OChain (glog : list call) (gres : res (dict * str))          (* get_data: calls seen by the sources, result *)
          (flog : list nat) (fres : res (option str))           (* find_system: who was asked, result or exception *)
 | OAssoc (l r : res dict)                                       (* merge (merge a b) c, merge a (merge b c) *)
-| OHist (os : list ostep).
+| OHist (os : list ostep)
+| OBuild (cns : list (res unit)) (os : list ostep).             (* outcome of every construction attempt, then the calls *)
 
 (* the hash as a table filled by the harness with the real _hash_str *)
 Definition table_H (t : list (str * str)) (s : str) : str :=
   match find (fun p => str_eqb s (fst p)) t with Some p => snd p | None => 63%N :: s end.
 Definition mk_source (p : src_desc) : source := const_source (fst p) (snd p).
+
+(* get_composite_data_source creates the constituents in order; the first one that cannot be created makes the whole
+   construction fail with its error - nothing is half built, later constituents are not attempted *)
+Fixpoint construct_once (fails : list nat) : bool * list nat :=
+  match fails with
+  | [] => (true, [])
+  | O :: r => let (ok, r') := construct_once r in (ok, O :: r')
+  | S n :: r => (false, n :: r)
+  end.
+Fixpoint construct (fexc : exc) (tries : nat) (fails : list nat) : list (res unit) :=
+  match tries with
+  | O => []
+  | S t => let (ok, f') := construct_once fails in
+           if ok then [Ok tt] else Err fexc :: construct fexc t f'
+  end.
+Definition built (cs : list (res unit)) : bool := match last cs (Err TypeError) with Ok _ => true | Err _ => false end.
+Definition hist_model (ml ms : bool) (ht : list (str * str)) (steps : list cstep) : list ostep :=
+  map (fun st =>
+         let ss := map mk_source (st_srcs st) in
+         let (glog, gres) := comp_get (table_H ht) ml ms 0 ss (st_sys st) (st_pd st) (st_pv st) in
+         let (flog, fres) := comp_find 0 ss (st_fk st) (st_fv st) in
+         (glog, gres, flog, fres)) steps.
 
 Definition run_model (c : case) : obs :=
   match c with
@@ -40,11 +66,10 @@ Definition run_model (c : case) : obs :=
       OAssoc (bind (merge ml ms a b) (fun m => merge ml ms m c)) (bind (merge ml ms b c) (fun m => merge ml ms a m))
   | CHist ml ms ht steps =>
       (* the composite keeps no state: every call is the call of a new composite over the sources as they answer now *)
-      OHist (map (fun st =>
-               let ss := map mk_source (st_srcs st) in
-               let (glog, gres) := comp_get (table_H ht) ml ms 0 ss (st_sys st) (st_pd st) (st_pv st) in
-               let (flog, fres) := comp_find 0 ss (st_fk st) (st_fv st) in
-               (glog, gres, flog, fres)) steps)
+      OHist (hist_model ml ms ht steps)
+  | CBuild ml ms ht fails fexc tries steps =>
+      let cs := construct fexc tries fails in
+      OBuild cs (if built cs then hist_model ml ms ht steps else [])
   end.
 
 (* ---------------------------------------------------------------- checker *)
@@ -124,6 +149,13 @@ Definition holds (c : case) (o : obs) : list string :=
   match c, o with
   | CAssoc _ _ _ _ _, OAssoc l r => holds_assoc l r
   | CHist ml ms ht steps, OHist os => holds_hist ml ms ht steps os
+  | CBuild ml ms ht fails fexc tries steps, OBuild cns os =>
+      (* every failed attempt raises the constituent's error, a composite exists only after an attempt without failure,
+         and then every call is the fold over ALL configured sources *)
+      (if list_eqb (fun a b => match a, b with Ok _, Ok _ => true | Err e, Err e' => exc_eqb e e' | _, _ => false end)
+                   cns (construct fexc tries fails) then [] else ["construction"%string]) ++
+      (if built cns then holds_hist ml ms ht steps os
+       else match os with [] => [] | _ => ["used_without_construction"%string] end)
   | CMerge ml ms a b, OMerge r a' b' => holds_merge ml ms a b r a' b'
   | CChain ml ms ht srcs sys pd pv fk fv, OChain glog gres flog fres =>
       holds_chain ml ms ht srcs sys pd pv fk fv glog gres flog fres
@@ -135,6 +167,7 @@ Definition valid (c : case) : Prop :=
   | CMerge _ _ a b => wf (VDict a) = true /\ wf (VDict b) = true
   | CChain _ _ _ _ _ _ _ _ _ => True
   | CHist _ _ _ _ => True
+  | CBuild _ _ _ _ _ _ _ => True
   | CAssoc ml ms a b c =>
       (* the triple is one on which the model's two groupings agree (checked, not proved, for every generated triple) *)
       res_same (bind (merge ml ms a b) (fun m => merge ml ms m c)) (bind (merge ml ms b c) (fun m => merge ml ms a m)) = true
@@ -174,6 +207,10 @@ Definition sx_of_obs (o : obs) : sx :=
   | OChain glog gres flog fres =>
       L [L (map sx_of_call glog); sx_of_gres gres; L (map sxNat flog); sx_of_fres fres]
   | OAssoc l r => L [sx_of_res sx_of_dict l; sx_of_res sx_of_dict r]
+  | OBuild cns os =>
+      L [L (map (fun r => match r with Ok _ => I 0 | Err e => I (exc_code e) end) cns);
+         L (map (fun o => match o with (glog, gres, flog, fres) =>
+                    L [L (map sx_of_call glog); sx_of_gres gres; L (map sxNat flog); sx_of_fres fres] end) os)]
   | OHist os => L (map (fun o => match o with (glog, gres, flog, fres) =>
                          L [L (map sx_of_call glog); sx_of_gres gres; L (map sxNat flog); sx_of_fres fres] end) os)
   end.
@@ -238,6 +275,14 @@ Definition decode (x : sx) : option (case * obs) :=
       match asBool ml, asBool ms, dict_of_sx a, dict_of_sx b, obs_of_sx true io with
       | Some ml', Some ms', Some a', Some b', Some o => Some (CMerge ml' ms' a' b', o)
       | _, _, _, _, _ => None
+      end
+  | L [I 4%Z; ml; ms; L ht; fails; I fx; tries; L steps; L [L cns; L io]] =>
+      match asBool ml, asBool ms, omap' pair_of_sx ht, asListOf asNat fails, asNat tries, omap' cstep_of_sx steps,
+            omap' (fun x => match x with I 0%Z => Some (Ok tt) | I c => Some (Err (exc_of_code c)) | _ => None end) cns,
+            omap' ostep_of_sx io with
+      | Some ml', Some ms', Some ht', Some fl, Some tr, Some st, Some cs, Some o =>
+          Some (CBuild ml' ms' ht' fl (exc_of_code fx) tr st, OBuild cs o)
+      | _, _, _, _, _, _, _, _ => None
       end
   | L [I 3%Z; ml; ms; L ht; L steps; L io] =>
       match asBool ml, asBool ms, omap' pair_of_sx ht, omap' cstep_of_sx steps, omap' ostep_of_sx io with
